@@ -53,6 +53,12 @@ func vfC02Variants() []vfVariant {
 	c = vfBaseCfg(vfSuiteByName("PSK-GCM"), "")
 	c.Store = true
 	add("12-resumed", c, true)
+	c = vfBaseCfg(vfSuiteByName("RSA-GCM128"), "rsa")
+	c.Store, c.Verify = true, true
+	add("12-store-full-rsa", c, false)
+	c = vfBaseCfg(vfSuiteByName("RSA-CHACHA"), "rsa")
+	c.Store, c.Verify = true, true
+	add("12-resumed-rsa", c, true)
 	c = vfBaseCfg(vfSuiteByName("ECDSA-GCM128"), "ecdsa")
 	c.MTU = 100
 	add("12-mtu100", c, false)
